@@ -281,10 +281,12 @@ def emit_lexicase(h: Harness, pop, res, rec, script, mins, eps, k, tag):
     impl = [[shuffles[i] if i < len(shuffles) else "none", w[0]] for i, w in enumerate(winners)]
     h.agree("LexicaseSelection.apply", ["lexicase", pop, nc, mins, eps, k, script], impl, nontrivial=nontrivial, replay=replay)
     # level B: every winner is one of the remaining candidates and survives the lexicase filter for some order of the cases
-    h.holds("LexicaseSelection.apply", "winner-not-a-lexicase-survivor", ["prop_lexicase", pop, nc, mins, eps, winners],
-            f"LexicaseSelection(epsilon={eps}) on (id, aggregate, components)={pop}, minimize={mins}, target_size={k}, draws {script}: "
-            f"winners {[w[0] for w in winners]} -- some winner does not survive the lexicase filter over the candidates still "
-            f"available, for any order of the cases (or is not an available candidate)", replay, nontrivial=nontrivial)
+    # (the existential over case orders is enumerated by the model: asked for up to 6 cases; beyond that the drawn order below decides)
+    if nc <= 6:
+      h.holds("LexicaseSelection.apply", "winner-not-a-lexicase-survivor", ["prop_lexicase", pop, nc, mins, eps, winners],
+              f"LexicaseSelection(epsilon={eps}) on (id, aggregate, components)={pop}, minimize={mins}, target_size={k}, draws {script}: "
+              f"winners {[w[0] for w in winners]} -- some winner does not survive the lexicase filter over the candidates still "
+              f"available, for any order of the cases (or is not an available candidate)", replay, nontrivial=nontrivial)
     # and against the order actually drawn, when one was drawn per winner
     if len(shuffles) == len(winners):
         remaining = list(pop)
@@ -359,6 +361,25 @@ def check_lexicase_random(h: Harness):
             rec = TwoStreamSource(script)
             pop, res = lexicase_run(shape, comps, mins, eps, k, rec)
             emit_lexicase(h, pop, res, rec, script, mins, eps, k, "scripted")
+    # MANY cases (13 to 20: a regression data set, one case per sample) on which the candidates mostly agree -- near-clones that differ on
+    # one or two cases only: every case is looked at, the one that tells them apart included
+    for _ in range(h.n(40, 400)):
+        n = rng.randint(2, 5)
+        nc = rng.randint(13, 20)
+        base = [rng.randint(0, 2) for _ in range(nc)]
+        shape = list(range(n))
+        comps = {}
+        for o in shape:
+            row = list(base)
+            for _c in range(rng.choice([0, 1, 1, 2])):
+                row[rng.randrange(nc)] += rng.choice([-1, 1])
+            comps[o] = row
+        mins = [rng.random() < 0.5 for _ in range(nc)]
+        eps = rng.random() < 0.25
+        k = rng.randint(1, n)
+        rec = Recording(NativeRandomSource(rng.randrange(10**6)))
+        pop, res = lexicase_run(shape, comps, mins, eps, k, rec)
+        emit_lexicase(h, pop, res, rec, list(rec.script), mins, eps, k, "many-cases")
     # beyond the population: error predicted by the model
     for n, k in [(1, 2), (2, 3), (3, 5)]:
         shape = list(range(n))
